@@ -370,6 +370,8 @@ class Expander:
 
     def begin(self, ident):
         self.out.append('//@@BEGIN %s' % ident)
+        # own solver instance per function: lets verus --num-threads verify functions in parallel
+        self.out.append('#[verifier::spinoff_prover]')
 
     def end(self, ident):
         self.out.append('//@@END %s' % ident)
